@@ -25,6 +25,10 @@ def levels(tier):
             {"name": "subset", "n": 0, "prelude": TPL, "subset": 2, "alphabet": ["links"], "defaults": ["never"], "pool": POOL5, "ks": [1, 2]},
             {"name": "empty-prefix", "n": 0, "prelude": TPL3, "subset": 2, "alphabet": ["links"], "defaults": ["never"], "pool": POOL6, "ks": [1, 2],
              "orders": 3},
+            {"name": "nested-child", "n": 0, "prelude": TPL + [["we", [[2, 5]]]], "subset": 2, "alphabet": ["links"], "defaults": ["never"], "pool": POOL5,
+             "ks": [1, 2]},
+            {"name": "requery", "n": 1, "prelude": TPL + [["we", [[2, 5]]], ["links", [[0, 1], [1, 2], [4, 2], [3, 0]]]], "alphabet": ["addprefix", "rmprefix", "moveprefix"],
+             "defaults": ["never"], "pool": POOL5, "ks": [1], "requery": True},
         ]
     return [
         {"name": "subset", "n": 0, "prelude": TPL, "subset": 3, "alphabet": ["links"], "defaults": ["never"], "pool": POOL5, "ks": [1, 2, 3, 5]},
@@ -40,8 +44,26 @@ def levels(tier):
 
 def harness(E):
     P = E.params
+    sel = {}
+    if P.get("requery"):
+        # paginate, edit the prefixes, paginate again with the same parameters: the second answer must follow the edit
+        t, h, pool = build(E, P, after_step=lambda t_, h_: paginate_check(E, P, t_, h_, pool_of(h_), "a", sel))
+        return paginate_check(E, P, t, h, pool, "b", sel)
     t, h, pool = build(E, P)
+    return paginate_check(E, P, t, h, pool, "", sel)
+
+
+def pool_of(h):
+    return h.pool
+
+
+def paginate_check(E, P, t, h, pool, tag, sel):
     ref = h.ref
+
+    def pick(name, n):
+        if name not in sel:
+            sel[name] = E.choose(name, n)
+        return sel[name] % n
     if P.get("subset"):
         # which pages of the webentity bear links is a symbolic choice: none / to a page inside / to a page outside
         pairs = []
@@ -64,18 +86,18 @@ def harness(E):
     alive = h.alive()
     if not alive:
         return
-    weid, prefix_lrus = alive[E.choose("we", len(alive))]
+    weid, prefix_lrus = alive[pick("we", len(alive))]
     prefix_lrus = list(prefix_lrus)
     if len(prefix_lrus) > 1:
         E.reach("two-prefixes")
         if P.get("orders") and len(prefix_lrus) == 3:
             perms = [[0, 1, 2], [2, 1, 0], [1, 0, 2], [0, 2, 1], [1, 2, 0], [2, 0, 1]][:P["orders"]]
-            prefix_lrus = [prefix_lrus[j] for j in perms[E.choose("order", len(perms))]]
-        elif E.flag("reverse"):
+            prefix_lrus = [prefix_lrus[j] for j in perms[pick("order", len(perms))]]
+        elif pick("reverse", 2):
             prefix_lrus.reverse()
-    sw = E.choose("switches", 3)
+    sw = pick("switches", 3)
     inte, outb = [(True, False), (False, True), (True, True)][sw]
-    k = P["ks"][E.choose("k", len(P["ks"]))]
+    k = P["ks"][pick("k", len(P["ks"]))]
     ok, full = E.call("get_webentity_pagelinks", t.get_webentity_pagelinks, weid, prefix_lrus,
                       include_inbound=False, include_internal=inte, include_outbound=outb)
     E.check(ok, "pagelinks:refused")
@@ -126,4 +148,4 @@ def harness(E):
         token = ans["token"]
         E.reach("resumed")
     match_triples(E, [[a, b, w] for a, b, w in got], full, "pagelinks:complete")
-    E.observe("links", [[a, b, w] for a, b, w in got])
+    E.observe(tag + "links", [[a, b, w] for a, b, w in got])
